@@ -31,6 +31,10 @@ def expand(cspec):
     """cspec = {'seed','size','alpha'} -> bytes (deterministic)."""
     if cspec.get('literal_hex') is not None:
         return bytes.fromhex(cspec['literal_hex'])
+    if cspec.get('prefix_hex'):
+        rest = dict(cspec)
+        pre = bytes.fromhex(rest.pop('prefix_hex'))
+        return (pre + expand(rest))[:max(int(cspec.get('size', 0)), len(pre))]
     size = int(cspec.get('size', 0))
     alpha = cspec.get('alpha', 'bin')
     r = random.Random(cspec.get('seed', 0))
@@ -1157,6 +1161,9 @@ class SyncService(object):
             bounds = []
         bad = dev.spec.get('bad_record', {}).get('recv')
         if rf:
+            if rf.get('empty_data_first'):
+                out += W.sync_data(b'')      # a DATA record without data (a read that returned nothing) precedes the FAIL
+                dev.probe('recv_empty_data_before_fail')
             out += W.sync_fail(bytes.fromhex(rf['reason']))
             dev.probe('recv_fail_' + rf['at'])
             self.cur_hdrlen = 8
